@@ -387,6 +387,16 @@ func c10(r *engine.Report, p *engine.Program) {
 		r.Check("R5-expiry-notice", "CreateTraceroute: probes every budget 0..MaxForwardingHops() inclusive", trf.Pos(), okIncl,
 			"on the edge taken when the counter equals MaxForwardingHops() the Ping call is reached before any return", whyIncl)
 	}
+	// R5d the notice is always transmitted, and every decoded packet is dispatched
+	if su := p.Func("(*netceptor.Netceptor).sendUnreachable"); su != nil {
+		okA, whyA := noticeAlwaysSent(p, su)
+		r.Check("R5-expiry-notice", "sendUnreachable: every notice is transmitted", su.Pos(), okA, "assuming the encoding succeeded, no return of sendUnreachable is reachable without sendMessage", whyA)
+	}
+	if rpf := p.Func("(*netceptor.Netceptor).runProtocol"); rpf != nil {
+		okD, whyD := decodedAlwaysDispatched(p, rpf)
+		r.Check("R6-receive-side", "runProtocol: every successfully decoded data packet is handed to handleMessageData", rpf.Pos(), okD,
+			"from the decode, assuming it succeeded, the next select/return is unreachable without passing handleMessageData: whatever budget a packet carries, the decision is forwardMessage's", whyD)
+	}
 	// ping / traceroute test for the same constant
 	wantP, _ := constStringOf(p.Const("netceptor", "ProblemExpiredInTransit"))
 	tr := p.Func("netceptor.CreateTraceroute$1")
